@@ -1,12 +1,36 @@
 import Driver.Util
 import EraVerif.Gen.Thresholds
+import EraVerif.Model.ScheduleNew
 
 namespace Driver.C07
-open Lean Driver EraVerif.Gen.Thresholds
+open Lean Driver EraVerif.Gen.Thresholds EraVerif.Model.ScheduleNew
 
 /-- `{"n": <u64>}` ↦ the three thresholds as computed by the regenerated definitions (wrapping u64), plus the
 checked evaluation (`null` = the Rust expression would overflow/underflow). -/
+def parseV (j : Json) : Option VInfo :=
+  match j with
+  | Json.arr #[k, w, l] =>
+    match k.getNat?.toOption, w.getNat?.toOption, l.getBool?.toOption with
+    | some k, some w, some l => some { key := k, weight := w, leader := l }
+    | _, _, _ => none
+  | _ => none
+
+/-- `{"sched": [[key, weight, leader], ...]}` ↦ `Schedule::new` on that committee: accepted or not, and for an accepted
+one the recorded total weight and its thresholds. -/
+def handleSched (vs : Array Json) : Json :=
+  match vs.toList.mapM parseV with
+  | none => badOp
+  | some vs =>
+    match scheduleNew vs with
+    | none => Json.mkObj [("ok", Json.bool false)]
+    | some (t, l) =>
+      let u : UInt64 := UInt64.ofNat t
+      Json.mkObj [("ok", Json.bool true), ("total", natJ t), ("leader_weight", natJ l),
+        ("f", natJ (max_faulty_weight u).toNat), ("q", natJ (quorum_threshold u).toNat),
+        ("s", natJ (subquorum_threshold u).toNat)]
+
 def handle (j : Json) : Json :=
+  if let some vs := getArr j "sched" then handleSched vs else
   match getNat j "n" with
   | none => badOp
   | some n =>
